@@ -16,13 +16,40 @@ NCONFIGS = {
     "n3a": dict(reqs={"t1": ["a"], "t2": ["b"], "t3": ["c"]}, nested={"a": "ia"}, bg=False, mc="MC_RpycServeNested_3a.cfg"),
     "n3ab": dict(reqs={"t1": ["a"], "t2": ["b"], "t3": ["c"]}, nested={"a": "ia", "b": "ib"}, bg=False,
                  mc="MC_RpycServeNested_3ab.cfg"),
+    # next to threads that only serve (serve_threaded's workers): the situation its docstring warns about
+    "n2a_p": dict(reqs={"t1": ["a"], "t2": ["b"]}, nested={"a": "ia"}, bg=False, pool=("p1",), mc="MC_RpycServeNested_2a_p.cfg"),
+    "n2ab_p": dict(reqs={"t1": ["a"], "t2": ["b"]}, nested={"a": "ia", "b": "ib"}, bg=False, pool=("p1",),
+                   mc="MC_RpycServeNested_2ab_p.cfg"),
+    "n1_pp": dict(reqs={"t1": ["a"]}, nested={"a": "ia"}, bg=False, pool=("p1", "p2"), mc="MC_RpycServeNested_1_pp.cfg"),
 }
 ACTIONS = ["Start", "CWrite", "WCheck", "WFinal", "Precheck", "TryLock", "Blocked", "Recheck", "Recv", "Release", "Notify",
            "Dispatch", "PopCb", "DExpired", "Publish", "Published", "PeerReply"]
 
 
-def fixture_for(nested):
+def fixture_for(nested, pool=()):
     class NestedFixture(svc.Fixture):
+        def __init__(self, *a, **k):
+            svc.Fixture.__init__(self, *a, **k)
+            self.pool = {}
+            for name in pool:
+                self.pool[name] = self.sched.spawn(name, self._serve_only)
+
+        def sleeps_past_publication(self, name, r):
+            # with nesting a thread waits for the result it created last (the INSPECT round trip inside a dispatch), which need
+            # not be the result of its own request
+            mine = self.created.get(name) or []
+            if not mine:
+                return False
+            last = mine[-1]
+            return bool(self.slot.__get__(last)) if self.slot is not None else False
+
+        def _serve_only(self):
+            try:
+                while True:
+                    self.conn.serve(None)
+            except EOFError:
+                pass
+
         def _client(self, t):
             for r in self.reqs[t]:
                 try:
@@ -113,8 +140,9 @@ def tla_consts(cfg, prefix="TN"):
             '%sNested == {%s}' % (prefix, ", ".join('"%s"' % r for r in sorted(nested))),
             '%sInsp == [r \\in %sNested |-> CASE %s]' % (prefix, prefix, " [] ".join(
                 'r = "%s" -> "%s"' % (r, nested[r]) for r in sorted(nested)))]
+    defs.append('%sPool == {%s}' % (prefix, ", ".join('"%s"' % t for t in sorted(cfg.get("pool", ())))))
     lines = ["Clients <- %sClients" % prefix, "Req <- %sReq" % prefix, "Nested <- %sNested" % prefix,
-             "InspOf <- %sInsp" % prefix, "Own = TRUE"]
+             "InspOf <- %sInsp" % prefix, "Pool <- %sPool" % prefix, "Own = TRUE"]
     return "\n".join(defs), lines
 
 
@@ -149,7 +177,7 @@ def judge(res, cfg):
 
 
 def model_check(chk, thorough):
-    names = ["n1", "n2a", "n2ab"] + (["n3a", "n3ab"] if thorough else [])
+    names = ["n1", "n2a", "n2ab", "n2a_p"] + (["n3a", "n3ab", "n2ab_p", "n1_pp"] if thorough else [])
     for n in names:
         cfg = NCONFIGS[n]
         res = tlc.require_ok(tlc.run_tlc("MC_RpycServeNested", cfg["mc"], coverage=True, timeout=3000), cfg["mc"])
@@ -157,8 +185,8 @@ def model_check(chk, thorough):
             raise tlc.MachineryError("specification RpycServeNested violates %s under %s" % (res.violation, cfg["mc"]))
         chk.add_tlc(res, "RpycServeNested, exhaustive: %d client(s), replies of %s carry references (nested INSPECT)" % (
             len(cfg["reqs"]), sorted(cfg["nested"])))
-        if n != "n1":
-            for a in ACTIONS:
+        if n not in ("n1", "n1_pp"):
+            for a in ACTIONS + (["PoolEnter"] if cfg.get("pool") else []):
                 if res.coverage.get(a, (0, 0))[1] == 0:
                     raise tlc.MachineryError("vacuity: action %s never taken in %s" % (a, cfg["mc"]))
     # the first version of the repair (a thread waits for its own outer reply): TLC's hang, kept as the witness
@@ -173,11 +201,12 @@ def explore(chk, which, on_c13, on_c14, thorough):
     if not svc.handoff_repaired():
         chk.note("nested serving is specified for the repaired serve() only; the working tree has the pinned one")
         return
-    plan = [("n2a", 60, 30), ("n2ab", 60, 30), ("n3a", 40, 20)] if not thorough else \
-        [("n1", 20, 10), ("n2a", 600, 300), ("n2ab", 600, 300), ("n3a", 500, 300), ("n3ab", 500, 300)]
+    plan = [("n2a", 60, 30), ("n2ab", 60, 30), ("n3a", 40, 20), ("n2a_p", 50, 25)] if not thorough else \
+        [("n1", 20, 10), ("n2a", 600, 300), ("n2ab", 600, 300), ("n3a", 500, 300), ("n3ab", 500, 300), ("n2a_p", 500, 300),
+         ("n2ab_p", 400, 200), ("n1_pp", 300, 150)]
     for name, n_random, n_pct in plan:
         cfg = NCONFIGS[name]
-        fxc = fixture_for(cfg["nested"])
+        fxc = fixture_for(cfg["nested"], cfg.get("pool", ()))
         rnd = random.Random(chk.seed * 7919 + sum(map(ord, name)))
         traces = []
 
